@@ -124,18 +124,40 @@ def run(run):
                       key=f"sign_authorized|{opn}|initial-bytes", where=sa.loc(c),
                       message=f"{opn}: initial_bytes (`{norm(ib) if ib is not None else None}`) is not the data byte of the answer to the previous step "
                               f"({why}): the first chunk would be sized by a stale or foreign request")
-    # the extradata (witness script, outpoint value) is built exactly for the segwit mode
-    for d_ in PV.defs(sa, D).get("ed_bytes", []) if "ed_bytes" in PV.defs(sa, D) else []:
-        lay_ = _lay(run, PV, sa, D, d_.value, d_.cnode) if d_.value is not None else set()
-        ts_ = F.expanded(sa, D, d_.cnode, PV)
-        seg = "sighash_computation_mode == SighashComputationMode.SEGWIT" in ts_
-        if lay_ == {""}:
-            run.check("R1", not seg and not any("sighash_computation_mode" in t for t in ts_), "empty extradata is the unconditional default",
-                      key="sign_authorized|BTC_TX|extradata-default", where=sa.loc(d_.node), message="the empty extradata default is conditional on the sighash mode")
-        else:
-            run.check("R1", seg, "extradata built exactly when the mode is SEGWIT", key="sign_authorized|BTC_TX|extradata-guard", where=sa.loc(d_.node),
-                      message=f"the segwit extradata ({sorted(lay_)[:1]}) is built under {sorted(t for t in ts_ if 'sighash' in t)}, not under "
-                              "`sighash_computation_mode == SighashComputationMode.SEGWIT`: legacy inputs would carry extradata and segwit inputs none")
+    # the extradata (witness script, outpoint value) is built exactly for the segwit mode: every path to the BTC_TX send is walked with the
+    # mode test as the one interpreted atom; what `ed_bytes` stands for at the send must be the segwit layout iff the test held on the path
+    # (an unconditional default overridden in the segwit branch, an if/else, a conditional expression all give the same table)
+    SEGT = "sighash_computation_mode == SighashComputationMode.SEGWIT"
+
+    def seg_atom(e):
+        t = norm(e)
+        if t == SEGT or t == "SighashComputationMode.SEGWIT == sighash_computation_mode":
+            return ("SEG", True)
+        if t == "sighash_computation_mode != SighashComputationMode.SEGWIT":
+            return ("SEG", False)
+        return None
+    btc = [c for c in chunks if getattr(P.const_eval(kwarg(c, "operation"), sa.module, cls=D), "name", None) == "BTC_TX"]
+    n_ed = 0
+    for c in btc:
+        dexp = kwarg(c, "data")
+        dnames = {n.id for n in ast.walk(dexp) if isinstance(n, ast.Name)}
+        for cn in ga.nodes_of(c):
+            for lf in Walker(A, sa, D, seg_atom, max_leaves=512, max_steps=20000).walk(ga.entry, stops={cn}):
+                if lf.kind != "stop":
+                    continue
+                n_ed += 1
+                L_ = Layout(lambda e: try_fold(P, e, sa, D))
+                try:
+                    lay_ = L_.canon(norm(lf.deep(dexp, depth=12)))
+                except AnalysisError:
+                    lay_ = "?"
+                seg = lf.pc.get("SEG")
+                want_ = [w for w in want_layouts["BTC_TX"][0] if ("witness_script" in w) == bool(seg)]
+                run.check("R1", seg is not None and lay_ in want_, "extradata present exactly when the mode is SEGWIT",
+                          key=f"sign_authorized|BTC_TX|extradata-{'guard' if seg else 'default'}", where=sa.loc(c),
+                          message=(f"on a path where the sighash mode is {'SEGWIT' if seg else 'not SEGWIT' if seg is not None else 'never tested'} the BTC_TX "
+                                   f"payload is `{lay_[:160]}`: segwit inputs must carry varint(len(ws)) | ws | u64le(outpoint) as extradata, legacy inputs none"))
+    run.floor("R1", "paths to the BTC_TX send", n_ed, 2)
     run.check("R1", seen_ops == ["BTC_TX", "TX_RECEIPT", "MERKLE_PROOF"], "steps in protocol order", key="sign_authorized|step-order-textual",
               where=sa.loc(), message=f"chunked steps appear as {seen_ops}")
     # merkle bounds (facts at the raise sites, local names expanded to what they stand for)
